@@ -102,6 +102,16 @@ def gen_value(rng, ty):
     return gen.rand_tree(rng, 2, small=True)
 
 
+def shape_value(rng, s):
+    """an argument value fitting a parameter shape."""
+    if s[0] == "leaf":
+        return gen_value(rng, s[2])
+    if s[0] == "cap":
+        return shape_value(rng, s[2])
+    tail = shape_value(rng, s[2]) if s[2] is not None else b""
+    return gen.lst([shape_value(rng, x) for x in s[1]], tail)
+
+
 class Scope:
     def __init__(self, vars_=None):
         self.vars = dict(vars_ or {})      # name -> type
@@ -541,7 +551,8 @@ class ProgGen:
         forms.append(body)
         tree = ("list", forms, None)
         return {"tree": tree, "pattern": pat, "argv": argv, "types": types, "features": sorted(self.used_features),
-                "dialect": self.dialect, "nfns": len(self.fns), "shape": shape}
+                "dialect": self.dialect, "nfns": len(self.fns), "shape": shape,
+                "fns": [{"name": f["name"], "inline": f["inline"], "shape": f["shape"], "pattern": f["pattern"]} for f in self.fns]}
 
 
 def gen_program(rng, dialect, features=None, nparams=None):
